@@ -202,46 +202,64 @@ Print Assumptions C08_generated_table.
 (* --------------------------------------------------------------- hash round trip *)
 
 (* a password hashed by the administration tool verifies for that password:
-   pbkdf2 for every salt, iteration count and key length >= 0, for every hash
-   function that returns the requested number of bytes *)
+   pbkdf2 for every password (any length), salt, iteration count and key
+   length >= 0, for every hash function that returns the requested number
+   of bytes *)
 Theorem C08_hash_roundtrip_pbkdf2 : forall pbkdf2 bcrypt_check bcrypt_gen,
   (forall pw s i n, (0 <= n)%Z -> Z.of_nat (String.length (pbkdf2 pw s i n)) = n) ->
   forall pw salt iterations length cost, (0 <= length)%Z ->
-  pw_match pbkdf2 bcrypt_check
-    (make_password pbkdf2 bcrypt_gen AlgPbkdf2 pw salt iterations length cost) pw = MOk true.
+  exists p, make_password pbkdf2 bcrypt_gen AlgPbkdf2 pw salt iterations length cost = Some p /\
+            pw_match pbkdf2 bcrypt_check p pw = MOk true.
 Proof. exact roundtrip_pbkdf2. Qed.
 Print Assumptions C08_hash_roundtrip_pbkdf2.
 
-(* bcrypt: for every pair of oracles such that the library's comparison
-   accepts the library's own hash (that IS the library's contract; the model
-   adds only that the record is stored and read back unchanged) *)
+(* bcrypt: whenever the tool produces a record it verifies for the password,
+   for every pair of oracles such that the library's comparison accepts the
+   library's own hash (that IS the library's contract) *)
 Theorem C08_hash_roundtrip_bcrypt : forall pbkdf2 bcrypt_check bcrypt_gen,
-  (forall pw cost salt, bcrypt_check (bcrypt_gen pw cost salt) pw = BMatch) ->
-  forall pw salt iterations length cost,
-  pw_match pbkdf2 bcrypt_check
-    (make_password pbkdf2 bcrypt_gen AlgBcrypt pw salt iterations length cost) pw = MOk true.
+  (forall pw cost salt h, bcrypt_gen pw cost salt = Some h -> bcrypt_check h pw = BMatch) ->
+  forall pw salt iterations length cost p,
+  make_password pbkdf2 bcrypt_gen AlgBcrypt pw salt iterations length cost = Some p ->
+  pw_match pbkdf2 bcrypt_check p pw = MOk true.
 Proof. exact roundtrip_bcrypt. Qed.
 Print Assumptions C08_hash_roundtrip_bcrypt.
 
+(* the tool hands the password to bcrypt AS IT IS (no truncation, no
+   normalisation): a record exists exactly when the library hashes that very
+   password ... *)
+Theorem C08_tool_hashes_the_given_password : forall pbkdf2 bcrypt_gen pw salt iterations length cost,
+  make_password pbkdf2 bcrypt_gen AlgBcrypt pw salt iterations length cost =
+  option_map (fun h => mkPassword "bcrypt" "" (Some h) "" 0%Z) (bcrypt_gen pw cost salt).
+Proof. exact make_bcrypt. Qed.
+Print Assumptions C08_tool_hashes_the_given_password.
+
+(* ... so a password longer than 72 bytes, of which bcrypt would only see a
+   prefix, is refused by the tool because the library refuses it *)
+Theorem C08_tool_refuses_long_bcrypt : forall pbkdf2 bcrypt_gen,
+  (forall pw cost salt, 72 < String.length pw -> bcrypt_gen pw cost salt = None) ->
+  forall pw salt iterations length cost, 72 < String.length pw ->
+  make_password pbkdf2 bcrypt_gen AlgBcrypt pw salt iterations length cost = None.
+Proof. exact tool_refuses_long_bcrypt. Qed.
+Print Assumptions C08_tool_refuses_long_bcrypt.
+
 Theorem C08_hash_roundtrip_wildcard : forall pbkdf2 bcrypt_check bcrypt_gen pw pw' salt iterations length cost,
-  pw_match pbkdf2 bcrypt_check
-    (make_password pbkdf2 bcrypt_gen AlgWildcard pw salt iterations length cost) pw' = MOk true.
+  exists p, make_password pbkdf2 bcrypt_gen AlgWildcard pw salt iterations length cost = Some p /\
+            pw_match pbkdf2 bcrypt_check p pw' = MOk true.
 Proof. exact roundtrip_wildcard. Qed.
 Print Assumptions C08_hash_roundtrip_wildcard.
 
 (* "and for no other password": PARTIAL.  The full statement is not provable:
    it is equivalent to collision-freeness of the hash function (first theorem)
    and false for some function with the right output length (second).  It is
-   a tested fact only (monitor hash_no_other), with the exceptions F22/F23
-   found on the real algorithms. *)
+   a tested fact only (monitors hash_no_other, hash_roundtrip_long), with the
+   exceptions F22/F23 found on the real algorithms. *)
 Definition C08_hash_no_other_full_statement : Prop := hash_no_other_statement.
 
 Theorem C08_hash_no_other_is_collision_freeness_partial : forall pbkdf2 bcrypt_check bcrypt_gen,
   (forall pw s i n, (0 <= n)%Z -> Z.of_nat (String.length (pbkdf2 pw s i n)) = n) ->
-  forall pw salt iterations length cost, (0 <= length)%Z ->
-  ((forall pw', pw_match pbkdf2 bcrypt_check
-                  (make_password pbkdf2 bcrypt_gen AlgPbkdf2 pw salt iterations length cost) pw' = MOk true ->
-                pw' = pw) <->
+  forall pw salt iterations length cost p, (0 <= length)%Z ->
+  make_password pbkdf2 bcrypt_gen AlgPbkdf2 pw salt iterations length cost = Some p ->
+  ((forall pw', pw_match pbkdf2 bcrypt_check p pw' = MOk true -> pw' = pw) <->
    (forall pw', pbkdf2 pw' salt iterations length = pbkdf2 pw salt iterations length -> pw' = pw)).
 Proof. exact no_other_iff_injective. Qed.
 Print Assumptions C08_hash_no_other_is_collision_freeness_partial.
@@ -349,8 +367,8 @@ Example C08_example :
       mkClient "c1" "alice" ["record"; "op"; "present"; "message"; "caption"; "token"] (Some "g"),
       JJoined)) /\
   (* the toy hash satisfies the hypothesis of the round trip *)
-  pw_match ex_pbkdf2 ex_bcrypt
-    (make_password ex_pbkdf2 (fun pw _ _ => pw) AlgPbkdf2 "pw" "salt" 7 4 0) "pw" = MOk true /\
+  option_map (fun p => pw_match ex_pbkdf2 ex_bcrypt p "pw")
+    (make_password ex_pbkdf2 (fun pw _ _ => Some pw) AlgPbkdf2 "pw" "salt" 7 4 0) = Some (MOk true) /\
   (* isolation: two operators, one demoted; the other keeps "op" *)
   (let w := run (fun _ => 3) [["message"; "op"]] true (init_world [["message"; "op"]])
               [Login 1 (SrcRole "op" true false); Login 2 (SrcRole "op" true false);
